@@ -17,6 +17,8 @@ import (
 	"math/rand"
 	"net"
 	"os"
+	"runtime"
+	"runtime/debug"
 	"sort"
 	"strings"
 	"sync"
@@ -191,6 +193,15 @@ type e2eScript struct {
 func (d *e2eIface) VarlinkGetName() string        { return "e2e.t" }
 func (d *e2eIface) VarlinkGetDescription() string { return "interface e2e.t\nmethod Echo() -> ()\n" }
 func (d *e2eIface) VarlinkDispatch(ctx context.Context, call varlink.Call, methodname string) error {
+	if methodname == "Fill" {
+		// background load of the cross family (not logged): n copies of the letter c
+		var in struct {
+			C string `json:"c"`
+			N int    `json:"n"`
+		}
+		call.GetParameters(&in)
+		return call.Reply(ctx, map[string]string{"v": strings.Repeat(in.C, in.N)})
+	}
 	var raw json.RawMessage
 	call.GetParameters(&raw)
 	var env struct {
@@ -339,7 +350,37 @@ type e2eScen struct {
 
 var e2eSeq int
 
-func runE2E(log *tr.Log, sc *e2eScen, rng *rand.Rand, tmpdir string, big bool) error {
+// crossFill performs one Fill call on a raw connection of its own; wait is closed when the reply may be read
+func crossFill(network, addr, letter string, n int, calls int, wait <-chan struct{}) bool {
+	c, err := net.DialTimeout(network, addr, 3*time.Second)
+	if err != nil {
+		return false
+	}
+	defer c.Close()
+	c.SetDeadline(time.Now().Add(40 * time.Second))
+	r := bufio.NewReaderSize(c, 1<<16)
+	for k := 0; k < calls; k++ {
+		fmt.Fprintf(c, `{"method":"e2e.t.Fill","parameters":{"c":%q,"n":%d}}`+"\x00", letter, n)
+		if wait != nil {
+			<-wait
+		}
+		b, err := r.ReadBytes(0)
+		if err != nil {
+			return false
+		}
+		var fr struct {
+			Parameters struct {
+				V string `json:"v"`
+			} `json:"parameters"`
+		}
+		if json.Unmarshal(b[:len(b)-1], &fr) != nil || fr.Parameters.V != strings.Repeat(letter, n) {
+			return false
+		}
+	}
+	return true
+}
+
+func runE2E(log *tr.Log, sc *e2eScen, rng *rand.Rand, tmpdir string, big bool, cross bool) error {
 	e2eSeq++
 	toks := &tokTable{m: map[string]int{}}
 	iface := &e2eIface{log: log, toks: toks, vals: map[int][]byte{}, ret: make(chan int, 16)}
@@ -412,6 +453,21 @@ func runE2E(log *tr.Log, sc *e2eScen, rng *rand.Rand, tmpdir string, big bool) e
 		ci := 1 + rng.Intn(len(sc.Calls))
 		if m := sc.Calls[ci-1].More; m > 0 {
 			absentTok = 100*ci + 2 + rng.Intn(m)
+		}
+	}
+	// cross family: while this scenario's calls run, another client has a 1 MiB reply pending that it does not read yet
+	// (its handler is parked in the write), and four more clients make large calls of their own.  Connections are
+	// independent: every one of them must get exactly its own bytes, and the scenario's trace must be what it is alone.
+	var crossRes chan bool
+	var crossGo chan struct{}
+	if cross {
+		crossRes = make(chan bool, 8)
+		crossGo = make(chan struct{})
+		go func() { crossRes <- crossFill(dialNet, dialAddr, "a", 1<<20, 1, crossGo) }()
+		time.Sleep(30 * time.Millisecond) // let the slow client's handler reach its write
+		for _, l := range []string{"b", "c", "d", "e"} {
+			l := l
+			go func() { crossRes <- crossFill(dialNet, dialAddr, l, 1<<20, 3, nil) }()
 		}
 	}
 	for idx, c := range sc.Calls {
@@ -500,6 +556,15 @@ func runE2E(log *tr.Log, sc *e2eScen, rng *rand.Rand, tmpdir string, big bool) e
 		}
 		log.Ev("CD", tr.M{"i": i})
 	}
+	if cross {
+		ok := true
+		for k := 0; k < 4; k++ {
+			ok = <-crossRes && ok
+		}
+		close(crossGo)
+		ok = <-crossRes && ok
+		log.Ev("XL", tr.M{"ok": ok, "clients": 5})
+	}
 	conn.Close()
 	svc.Shutdown()
 	select {
@@ -516,7 +581,13 @@ func cmdE2E(args []string) int {
 	out := fs.String("out", "trace.ndjson", "trace output")
 	seed := fs.Int64("seed", 1, "seed")
 	big := fs.Bool("big", false, "multi-MiB values")
+	cross := fs.Bool("cross", false, "concurrent large calls on other connections, one of them read late")
 	fs.Parse(args)
+	if *cross {
+		// one of the schedules the property quantifies over: a single P, no collection between the handlers
+		runtime.GOMAXPROCS(1)
+		debug.SetGCPercent(-1)
+	}
 	log, err := tr.Open(*out)
 	if err != nil {
 		fmt.Fprintln(os.Stderr, err)
@@ -548,8 +619,11 @@ func cmdE2E(args []string) int {
 			return 2
 		}
 		log.Raw([]byte(`{"ev":"Reset","scen":` + string(line) + `}`))
-		if err := runE2E(log, &sc, rng, tmpdir, *big); err != nil {
+		if err := runE2E(log, &sc, rng, tmpdir, *big, *cross); err != nil {
 			log.Ev("SETUPFAIL", tr.M{"err": err.Error()})
+		}
+		if *cross {
+			runtime.GC()
 		}
 		n++
 	}
